@@ -141,7 +141,7 @@ def make_param(param, tname, rng):
         return T(objects=given, default=objs[0]), dict(kind='sel', instantiate=False, objs=objs)
     if tname == 'esel':
         # declared without objects: assignments are not checked and grow the objects list of the Parameter they go through
-        return (param.Selector(objects=[], check_on_set=False) if rng.random() < 0.5 else param.Selector()), dict(kind='esel', instantiate=False)
+        return (param.Selector(objects=[], check_on_set=rng.choice([False, None])) if rng.random() < 0.5 else param.Selector()), dict(kind='esel', instantiate=False)
     if tname == 'const':
         k = rng.choice(['list', 'tok'])
         return param.Parameter(default=fresh_value(k), constant=True), dict(kind=k, instantiate=False, constant=True)
